@@ -124,7 +124,7 @@ Lemma JT_hole ws tqi tb tk ct cc rt h h' :
   (forall w k, nth_error ws w = Some k -> live k = true -> is_hole h' w = false -> is_hole h w = true ->
      k_dead k = false /\ k_tpool k = 0%nat /\
      exists m, pmode (k_st k) = Some m /\
-       match k_task k with Some (_, rest) => body_from m rest = true | None => m = MRun /\ k_st k = Ready end) ->
+       match k_task k with Some (_, rest) => body_from m rest = true | None => m = MRun /\ (k_st k = Ready \/ k_st k = Suspend 0 0) end) ->
   JT ws tqi tb tk ct cc rt h'.
 Proof.
   intros [Hlen Hq Hta Hhold Hinj Hmode Htb Hte Ht3 Htf Hrtnd Hrt Hrts Hrt3 Hcc Hc0 Hctb Hsuf Hfin Hccnd Hccb] Hnew.
@@ -134,12 +134,13 @@ Qed.
 
 Section Hole.
 Variable mx : Z.
+Variable kp : Z.
 
 Lemma J_reloc tnt x cq' d d' h h' t :
-  J mx tnt x d h t -> Q1 cq' ->
+  J mx kp tnt x d h t -> Q1 cq' ->
   JL (pw_clock x) (pw_workers x) (all_items cq') d' h' ->
   JT (pw_workers x) (all_items (pw_tq x)) (pw_tbody x) (po_tasks t) (pw_cancel_tasks x) (pw_cancel_cos x) (pw_running_tasks x) h' ->
-  J mx tnt (set_cq x cq') d' h' t.
+  J mx kp tnt (set_cq x cq') d' h' t.
 Proof.
   intros [[HQt HQc] HL HP HS HT HR HW] HQ' HL' HT'. constructor; autorewrite with pw; try assumption.
   - constructor; assumption.
@@ -150,20 +151,20 @@ Lemma set_cq_same x : set_cq x (pw_cq x) = x.
 Proof. destruct x; reflexivity. Qed.
 
 Lemma J_reloc_d tnt x d d' h h' t :
-  J mx tnt x d h t ->
+  J mx kp tnt x d h t ->
   JL (pw_clock x) (pw_workers x) (all_items (pw_cq x)) d' h' ->
   JT (pw_workers x) (all_items (pw_tq x)) (pw_tbody x) (po_tasks t) (pw_cancel_tasks x) (pw_cancel_cos x) (pw_running_tasks x) h' ->
-  J mx tnt x d' h' t.
+  J mx kp tnt x d' h' t.
 Proof.
   intros HJ HL' HT'. rewrite <- (set_cq_same x). apply (J_reloc tnt x (pw_cq x) d d' h h' t HJ); try assumption.
-  apply (jq_c _ _ (j_q _ _ _ _ _ _ _ HJ)).
+  apply (jq_c _ _ (j_q _ _ _ _ _ _ _ _ HJ)).
 Qed.
 
 (** facts about a parked worker, as [jt_mode] states them *)
 Definition parked_facts (k : worker) : Prop :=
   k_dead k = false /\ k_tpool k = 0%nat /\
   exists m, pmode (k_st k) = Some m /\
-    match k_task k with Some (_, rest) => body_from m rest = true | None => m = MRun /\ k_st k = Ready end.
+    match k_task k with Some (_, rest) => body_from m rest = true | None => m = MRun /\ (k_st k = Ready \/ k_st k = Suspend 0 0) end.
 
 Lemma JT_open ws tqi tb tk ct cc rt i : JT ws tqi tb tk ct cc rt None -> JT ws tqi tb tk ct cc rt (Some i).
 Proof. intro HT. apply (JT_hole _ _ _ _ _ _ _ None); [exact HT|]. intros w k _ _ _ H. discriminate. Qed.
@@ -179,16 +180,16 @@ Qed.
 (** * leaving the suspend heap *)
 
 Lemma J_open_susp tnt x d t ts i :
-  J mx tnt x d None t -> In (ts, i) (sd_suspend d) ->
+  J mx kp tnt x d None t -> In (ts, i) (sd_suspend d) ->
   exists k y, get_worker x i = Some k /\ k_st k = Suspend y ts /\ live k = true /\ parked_facts k /\
-    J mx tnt x (d_rm_susp d (ts, i)) (Some i) t.
+    J mx kp tnt x (d_rm_susp d (ts, i)) (Some i) t.
 Proof.
-  intros HJ Hin. pose proof (j_l _ _ _ _ _ _ _ HJ) as HL.
+  intros HJ Hin. pose proof (j_l _ _ _ _ _ _ _ _ HJ) as HL.
   destruct (JL_in_susp _ _ _ _ _ _ HL Hin) as (k & y & Hk & Est & C1 & C2 & C3 & C4).
   assert (live k = true) as Hl by (unfold live; rewrite Est; reflexivity).
   exists k, y. split; [exact Hk|]. split; [exact Est|]. split; [exact Hl|].
-  split; [apply (jt_mode _ _ _ _ _ _ _ _ (j_t _ _ _ _ _ _ _ HJ) _ _ Hk Hl eq_refl)|].
-  apply (J_reloc_d tnt x d _ None (Some i) t HJ); [|apply JT_open, (j_t _ _ _ _ _ _ _ HJ)].
+  split; [apply (jt_mode _ _ _ _ _ _ _ _ (j_t _ _ _ _ _ _ _ _ HJ) _ _ Hk Hl eq_refl)|].
+  apply (J_reloc_d tnt x d _ None (Some i) t HJ); [|apply JT_open, (j_t _ _ _ _ _ _ _ _ HJ)].
   apply (JL_reloc _ _ _ _ d _ None (Some i) i HL); unfold d_rm_susp.
   - intros w Hne. cbn [sd_suspend sd_syscall sd_sys_suspend snd]. split; [reflexivity|]. split.
     + pose proof (hpc_heap_remove (sd_suspend d) ts i w Hin) as H. revert H. destruct (Nat.eq_dec i w); [congruence | lia].
@@ -209,17 +210,17 @@ Qed.
 (** * leaving the syscall map *)
 
 Lemma J_open_sys tnt x d t ts i :
-  J mx tnt x d None t -> In (ts, i) (sd_sys_suspend d) ->
+  J mx kp tnt x d None t -> In (ts, i) (sd_sys_suspend d) ->
   exists k y n, get_worker x i = Some k /\ k_st k = Syscall y n (SSuspend ts) /\ live k = true /\ parked_facts k /\
-    In i (sd_syscall d) /\ J mx tnt x (d_rm_sys d (ts, i)) (Some i) t.
+    In i (sd_syscall d) /\ J mx kp tnt x (d_rm_sys d (ts, i)) (Some i) t.
 Proof.
-  intros HJ Hin. pose proof (j_l _ _ _ _ _ _ _ HJ) as HL.
+  intros HJ Hin. pose proof (j_l _ _ _ _ _ _ _ _ HJ) as HL.
   destruct (JL_in_sys _ _ _ _ _ _ HL Hin) as (k & y & n & Hk & Est & C1 & C2 & C3 & C4).
   assert (live k = true) as Hl by (unfold live; rewrite Est; reflexivity).
   destruct (jl_map _ _ _ _ _ HL) as [Hnd Hmap].
   exists k, y, n. split; [exact Hk|]. split; [exact Est|]. split; [exact Hl|].
-  split; [apply (jt_mode _ _ _ _ _ _ _ _ (j_t _ _ _ _ _ _ _ HJ) _ _ Hk Hl eq_refl)|]. split; [exact C4|].
-  apply (J_reloc_d tnt x d _ None (Some i) t HJ); [|apply JT_open, (j_t _ _ _ _ _ _ _ HJ)].
+  split; [apply (jt_mode _ _ _ _ _ _ _ _ (j_t _ _ _ _ _ _ _ _ HJ) _ _ Hk Hl eq_refl)|]. split; [exact C4|].
+  apply (J_reloc_d tnt x d _ None (Some i) t HJ); [|apply JT_open, (j_t _ _ _ _ _ _ _ _ HJ)].
   apply (JL_reloc _ _ _ _ d _ None (Some i) i HL); unfold d_rm_sys.
   - intros w Hne. cbn [sd_suspend sd_syscall sd_sys_suspend snd]. split; [reflexivity|]. split; [reflexivity|]. split; [tauto|]. split.
     + pose proof (hpc_heap_remove (sd_sys_suspend d) ts i w Hin) as H. revert H. destruct (Nat.eq_dec i w); [congruence | lia].
@@ -244,13 +245,13 @@ Proof. intros w _. tauto. Qed.
 
 (** * leaving the ready queue *)
 Lemma J_open_cq tnt x d t q' z :
-  J mx tnt x d None t -> Q1 q' ->
+  J mx kp tnt x d None t -> Q1 q' ->
   (forall y, cnt y (all_items (pw_cq x)) = (one y z + cnt y (all_items q'))%nat) ->
   exists w k, z = Z.of_nat w /\ get_worker x w = Some k /\ live k = true /\ parked_facts k /\
     (k_st k = Ready \/ (exists y ts, k_st k = Suspend y ts /\ ts <= pw_clock x) \/ (exists y n, k_st k = Syscall y n STimeout)) /\
-    J mx tnt (set_cq x q') d (Some w) t.
+    J mx kp tnt (set_cq x q') d (Some w) t.
 Proof.
-  intros HJ HQ' Hcnt. pose proof (j_l _ _ _ _ _ _ _ HJ) as HL.
+  intros HJ HQ' Hcnt. pose proof (j_l _ _ _ _ _ _ _ _ HJ) as HL.
   assert (In z (all_items (pw_cq x))) as Hz.
   { apply cnt_In. specialize (Hcnt z). rewrite one_same in Hcnt. lia. }
   destruct (jl_cq _ _ _ _ _ HL _ Hz) as (w & -> & Hlt).
@@ -258,8 +259,8 @@ Proof.
   assert (live k = true) as Hl.
   { unfold live. destruct Hres as [->|[(y & ts & -> & _)|(y & n & ->)]]; reflexivity. }
   exists w, k. split; [reflexivity|]. split; [exact Hk|]. split; [exact Hl|].
-  split; [apply (jt_mode _ _ _ _ _ _ _ _ (j_t _ _ _ _ _ _ _ HJ) _ _ Hk Hl eq_refl)|]. split; [exact Hres|].
-  apply (J_reloc tnt x q' d d None (Some w) t HJ HQ'); [|apply JT_open, (j_t _ _ _ _ _ _ _ HJ)].
+  split; [apply (jt_mode _ _ _ _ _ _ _ _ (j_t _ _ _ _ _ _ _ _ HJ) _ _ Hk Hl eq_refl)|]. split; [exact Hres|].
+  apply (J_reloc tnt x q' d d None (Some w) t HJ HQ'); [|apply JT_open, (j_t _ _ _ _ _ _ _ _ HJ)].
   apply (JL_reloc _ _ _ _ d d None (Some w) w HL).
   - intros v Hne. split; [|tauto]. unfold cqc. specialize (Hcnt (Z.of_nat v)). rewrite one_diff in Hcnt by lia. lia.
   - left. reflexivity.
@@ -276,12 +277,12 @@ Qed.
 
 (** * going back: to the ready queue *)
 Lemma J_close_push tnt x d w t k :
-  J mx tnt x d (Some w) t -> get_worker x w = Some k -> live k = true -> parked_facts k ->
+  J mx kp tnt x d (Some w) t -> get_worker x w = Some k -> live k = true -> parked_facts k ->
   (k_st k = Ready \/ (exists y ts, k_st k = Suspend y ts /\ ts <= pw_clock x) \/ (exists y n, k_st k = Syscall y n STimeout)) ->
-  J mx tnt (k_push 0 x w) d None t.
+  J mx kp tnt (k_push 0 x w) d None t.
 Proof.
-  intros HJ Hk Hl Hp Hst. pose proof (j_l _ _ _ _ _ _ _ HJ) as HL. unfold k_push.
-  destruct (Q1_lpush (pw_cq x) 0 (Z.of_nat w) (jq_c _ _ (j_q _ _ _ _ _ _ _ HJ))) as [HQ' Hcnt].
+  intros HJ Hk Hl Hp Hst. pose proof (j_l _ _ _ _ _ _ _ _ HJ) as HL. unfold k_push.
+  destruct (Q1_lpush (pw_cq x) 0 (Z.of_nat w) (jq_c _ _ (j_q _ _ _ _ _ _ _ _ HJ))) as [HQ' Hcnt].
   destruct (jl_hole _ _ _ _ _ HL w eq_refl) as [(N1 & N2 & N3 & N4) Hlt].
   apply (J_reloc tnt x _ d d (Some w) None t HJ HQ').
   - apply (JL_reloc _ _ _ _ d d (Some w) None w HL).
@@ -300,17 +301,17 @@ Proof.
     + intros ts v H. left. exact H.
     + apply (jl_map _ _ _ _ _ HL).
     + intros v H. left. exact H.
-  - apply (JT_close _ _ _ _ _ _ _ w (j_t _ _ _ _ _ _ _ HJ)). intros k' Hk' _. unfold get_worker in Hk. rewrite Hk in Hk'.
+  - apply (JT_close _ _ _ _ _ _ _ w (j_t _ _ _ _ _ _ _ _ HJ)). intros k' Hk' _. unfold get_worker in Hk. rewrite Hk in Hk'.
     injection Hk' as <-. exact Hp.
 Qed.
 
 (** * going back: to the suspend heap *)
 
 Lemma J_close_susp tnt x d w t k y ts :
-  J mx tnt x d (Some w) t -> get_worker x w = Some k -> k_st k = Suspend y ts -> parked_facts k ->
-  J mx tnt x (d_add_susp d (ts, w)) None t.
+  J mx kp tnt x d (Some w) t -> get_worker x w = Some k -> k_st k = Suspend y ts -> parked_facts k ->
+  J mx kp tnt x (d_add_susp d (ts, w)) None t.
 Proof.
-  intros HJ Hk Est Hp. pose proof (j_l _ _ _ _ _ _ _ HJ) as HL.
+  intros HJ Hk Est Hp. pose proof (j_l _ _ _ _ _ _ _ _ HJ) as HL.
   destruct (jl_hole _ _ _ _ _ HL w eq_refl) as [(N1 & N2 & N3 & N4) Hlt].
   apply (J_reloc_d tnt x d _ (Some w) None t HJ).
   - apply (JL_reloc _ _ _ _ d _ (Some w) None w HL); unfold d_add_susp.
@@ -330,17 +331,17 @@ Proof.
     + cbn [sd_sys_suspend]. intros ts' v H. left. exact H.
     + apply (jl_map _ _ _ _ _ HL).
     + cbn [sd_syscall]. intros v H. left. exact H.
-  - apply (JT_close _ _ _ _ _ _ _ w (j_t _ _ _ _ _ _ _ HJ)). intros k' Hk' _. unfold get_worker in Hk. rewrite Hk in Hk'.
+  - apply (JT_close _ _ _ _ _ _ _ w (j_t _ _ _ _ _ _ _ _ HJ)). intros k' Hk' _. unfold get_worker in Hk. rewrite Hk in Hk'.
     injection Hk' as <-. exact Hp.
 Qed.
 
 (** * going back: to the syscall map and its heap *)
 
 Lemma J_close_sys tnt x d w t k y n ts :
-  J mx tnt x d (Some w) t -> get_worker x w = Some k -> k_st k = Syscall y n (SSuspend ts) -> parked_facts k ->
-  J mx tnt x (d_add_sys d w ts) None t.
+  J mx kp tnt x d (Some w) t -> get_worker x w = Some k -> k_st k = Syscall y n (SSuspend ts) -> parked_facts k ->
+  J mx kp tnt x (d_add_sys d w ts) None t.
 Proof.
-  intros HJ Hk Est Hp. pose proof (j_l _ _ _ _ _ _ _ HJ) as HL.
+  intros HJ Hk Est Hp. pose proof (j_l _ _ _ _ _ _ _ _ HJ) as HL.
   destruct (jl_hole _ _ _ _ _ HL w eq_refl) as [(N1 & N2 & N3 & N4) Hlt].
   destruct (jl_map _ _ _ _ _ HL) as [Hnd Hmap].
   assert (mem_nat w (sd_syscall d) = false) as Em by (apply mem_nat_false, N4).
@@ -362,17 +363,17 @@ Proof.
     + cbn [sd_sys_suspend]. intros ts' v H. apply in_app_iff in H as [H|[H|[]]]; [left; exact H | injection H as _ <-; right; reflexivity].
     + cbn [sd_syscall]. constructor; assumption.
     + cbn [sd_syscall]. intros v [H|H]; [right; congruence | left; exact H].
-  - apply (JT_close _ _ _ _ _ _ _ w (j_t _ _ _ _ _ _ _ HJ)). intros k' Hk' _. unfold get_worker in Hk. rewrite Hk in Hk'.
+  - apply (JT_close _ _ _ _ _ _ _ w (j_t _ _ _ _ _ _ _ _ HJ)). intros k' Hk' _. unfold get_worker in Hk. rewrite Hk in Hk'.
     injection Hk' as <-. exact Hp.
 Qed.
 
 (** * the worker ended: it goes nowhere *)
 Lemma J_close_dead tnt x d d' w t k :
-  J mx tnt x d (Some w) t -> get_worker x w = Some k -> live k = false ->
+  J mx kp tnt x d (Some w) t -> get_worker x w = Some k -> live k = false ->
   sd_suspend d' = sd_suspend d -> sd_syscall d' = sd_syscall d -> sd_sys_suspend d' = sd_sys_suspend d ->
-  J mx tnt x d' None t.
+  J mx kp tnt x d' None t.
 Proof.
-  intros HJ Hk Hl E1 E2 E3. pose proof (j_l _ _ _ _ _ _ _ HJ) as HL.
+  intros HJ Hk Hl E1 E2 E3. pose proof (j_l _ _ _ _ _ _ _ _ HJ) as HL.
   destruct (jl_hole _ _ _ _ _ HL w eq_refl) as [Hnw Hlt].
   apply (J_reloc_d tnt x d _ (Some w) None t HJ).
   - apply (JL_dgone _ _ _ d d' None E1 E2 E3).
@@ -389,7 +390,7 @@ Proof.
     + intros ts v H. left. exact H.
     + apply (jl_map _ _ _ _ _ HL).
     + intros v H. left. exact H.
-  - apply (JT_close _ _ _ _ _ _ _ w (j_t _ _ _ _ _ _ _ HJ)). intros k' Hk' Hl'. unfold get_worker in Hk. rewrite Hk in Hk'.
+  - apply (JT_close _ _ _ _ _ _ _ w (j_t _ _ _ _ _ _ _ _ HJ)). intros k' Hk' Hl'. unfold get_worker in Hk. rewrite Hk in Hk'.
     injection Hk' as <-. congruence.
 Qed.
 
